@@ -216,6 +216,55 @@ Proof.
   - go_cases; cbn [pc_err_code String.eqb Ascii.eqb Bool.eqb]; go_leaf.
 Qed.
 
+(** ** jwt/header.go, jwt/claim_set.go: checkHeader, CheckClaimSet
+
+    [strutil.MakeSet] followed by lookups only is a list with membership;
+    [strings.Fields] is the model's [fields]. *)
+Lemma fields_go s : strings_Fields s = fields s.
+Proof. reflexivity. Qed.
+
+Lemma gen_checkHeader_is_model : forall got want : header,
+  jwt_header_err (gen_jwt_checkHeader (h_kid got) (h_alg got) (h_typ got) (h_kid want) (h_alg want) (h_typ want))
+  = check_header got want.
+Proof.
+  intros. unfold gen_jwt_checkHeader, check_header, go_str_eqb. change str_eqb with beq_bytes.
+  go_cases; cbn [jwt_header_err String.eqb Ascii.eqb Bool.eqb]; go_leaf.
+Qed.
+
+Lemma gen_CheckClaimSet_is_model : forall c tmpl : claims,
+  jwt_claims_err (gen_jwt_CheckClaimSet false false (c_iss c) (c_aud c) (c_typ c) (c_sub c) (c_scope c)
+                    (c_iss tmpl) (c_aud tmpl) (c_typ tmpl) (c_sub tmpl) (c_scope tmpl))
+  = check_claims c tmpl.
+Proof.
+  intros c tmpl. unfold gen_jwt_CheckClaimSet, check_claims, go_str_eqb, strutil_MakeSet. cbv zeta.
+  change strings_Fields with fields. change str_eqb with beq_bytes.
+  match goal with |- context [?f (fields (c_scope tmpl))] => is_fix f; set (F := f) end.
+  assert (L : forall l, F l = if forallb (fun s => mem_bytes s (fields (c_scope c))) l then None
+                             else Some (GoErr "Unauthorized" "scope %q missing")).
+  { induction l as [|x l IH]; [reflexivity|]. cbn [forallb]. unfold F at 1. fold F. rewrite IH.
+    unfold go_set_mem, mem_bytes. go_cases; reflexivity. }
+  rewrite !L. clear L.
+  assert (E : forall b, is_empty b = beq_bytes b []) by (intros [|? ?]; reflexivity).
+  rewrite !E.
+  go_cases; cbn [jwt_claims_err String.eqb Ascii.eqb Bool.eqb]; go_leaf.
+Qed.
+
+(** ** The constructors normalise the window: |w| (for the most negative
+    [int64] Go's negation wraps and the stored window stays negative). *)
+Lemma gen_NewTimeSigner_window_is_model : forall w, - two63z < w < two63z ->
+  gen_signer_NewTimeSigner_window w = abs_window w.
+Proof.
+  intros w H. unfold gen_signer_NewTimeSigner_window, abs_window, wrap_i64, two63z, two64z in *.
+  cbv zeta. go_cases; go_arith; lia.
+Qed.
+
+Lemma gen_NewRSATimeSigner_window_is_model : forall w, - two63z < w < two63z ->
+  gen_signer_NewRSATimeSigner_window w = abs_window w.
+Proof.
+  intros w H. unfold gen_signer_NewRSATimeSigner_window, abs_window, wrap_i64, two63z, two64z in *.
+  cbv zeta. go_cases; go_arith; lia.
+Qed.
+
 (** ** Property theorems read over the code *)
 
 (** The lifetime [Sessions.New] grants is capped by the configured one,
